@@ -170,6 +170,121 @@ def c17_h2(ctx):
             yield bad("C17-H2", "%s::handle_fault:missing-arms" % nm, at(f, t["span"]["line"]), "no dedicated arm for %s" % sorted(missing))
 
 
+@rule("C17", "C17-H9", 4, "the receiver's fault handler tells its caller to carry on exactly when the configured action is Ignore: the verdict is true on that arm and false after Cancel, Suspend and Abandon", also=("C13", "C19"))
+def c17_h9(ctx):
+    f = ctx.one("C17-H9", "RecvTransaction::handle_fault")
+    sw = _action_switch(ctx, f)
+    if sw is None:
+        raise Anchor("C17-H9", "RecvTransaction::handle_fault dispatch")
+    sb, t, e = sw
+    names = ctx.prog.variant_names("cfdp_core::pdu::fault_handler::FaultHandlerAction") or ctx.prog.variant_names("cfdp_core::pdu::FaultHandlerAction")
+    if not names:
+        raise Anchor("C17-H9", "enum FaultHandlerAction")
+    # blocks that set the verdict: `_0 = Ok(x)`
+    sites = {}
+    for b in f.live_blocks():
+        for st in f.blocks[b]["stmts"]:
+            if st["k"] == "assign" and st["place"]["local"] == 0 and not st["place"]["proj"] and st["rv"]["k"] == "agg" and st["rv"].get("variant") == "Ok" and len(st["rv"]["ops"]) == 1:
+                op = st["rv"]["ops"][0]
+                sites[b] = (op.get("val") if op.get("k") == "const" else None, st["span"]["line"])
+    if not sites:
+        raise Anchor("C17-H9", "Ok(verdict) returns of RecvTransaction::handle_fault")
+    arms = [(names.get(v, str(v)), tb) for v, tb in t["targets"]]
+    listed = {a for a, _ in arms}
+    rest = [a for a in ("Ignore", "Cancel", "Suspend", "Abandon") if a not in listed]
+    if rest and t.get("otherwise") is not None and f.blocks[t["otherwise"]]["term"]["k"] != "unreachable":
+        arms.append(("|".join(rest), t["otherwise"]))
+    for var, tb in arms:
+        # the verdict sites first met on the paths of this arm
+        seen, work, met = set(), [tb], []
+        while work:
+            x = work.pop()
+            if x in seen:
+                continue
+            seen.add(x)
+            if x in sites:
+                met.append(x)
+                continue
+            work.extend(y for y, _l in f.succs(x))
+        key = "RecvTransaction::handle_fault:verdict[%s]" % var
+        want = var == "Ignore"
+        if not met:
+            yield bad("C17-H9", key, at(f, t["span"]["line"]), "the %s arm returns no verdict of its own" % var)
+            continue
+        vals = {sites[x][0] for x in met}
+        if None in vals:
+            yield bad("C17-H9", key, at(f, sites[met[0]][1]), "after %s the verdict returned to the caller is computed from something other than the action taken: for some state the caller carries on (or stops) when it must not" % var)
+        elif "|" in var and want in {bool(v) for v in vals} and len({bool(v) for v in vals}) > 1:
+            yield bad("C17-H9", key, at(f, sites[met[0]][1]), "actions %s share an arm that returns both verdicts" % var)
+        elif {bool(v) for v in vals} != {want} and "|" not in var:
+            yield bad("C17-H9", key, at(f, sites[met[0]][1]), "after %s the handler tells its caller %s" % (var, "to stop" if want else "to carry on"))
+        elif "|" in var and {bool(v) for v in vals} != {False}:
+            yield bad("C17-H9", key, at(f, sites[met[0]][1]), "the arm shared by %s tells the caller to carry on" % var)
+        else:
+            yield ok("C17-H9", key, at(f, sites[met[0]][1]), "%s -> %s" % (var, want if "|" not in var else False))
+
+
+VERDICT_IGNORED_OK = {
+    "check_file_size": "the caller re-tests recv_state / state right after the call (it never continues on the verdict)",
+}
+
+
+@rule("C17", "C17-H10", 5, "the fault handler's verdict is obeyed: every caller in the receive transaction branches on it (or hands it on); it is dropped only where the caller re-tests the transaction state itself", also=("C13", "C19"))
+def c17_h10(ctx):
+    from common import local_uses
+
+    fns = impl_fns(ctx, RECV)
+    n = 0
+    cnt = {}
+    for f in fns:
+        for b, t in f.all_calls():
+            d, r, _ = ctx.prog.callee_of(t)
+            if not (r or d or "").endswith("RecvTransaction::handle_fault"):
+                continue
+            n += 1
+            base = "RecvTransaction::%s:handle_fault-verdict" % f.name
+            cnt[base] = cnt.get(base, 0) + 1
+            key = base + ("#%d" % cnt[base] if cnt[base] > 1 else "")
+            # follow the Result through `?` to the bool and see whether it reaches a switch or the return value
+            seen = set()
+            work = [t["dest"]["local"]] if not t["dest"]["proj"] else [0]
+            used = False
+            while work and not used:
+                l = work.pop()
+                if l in seen:
+                    continue
+                seen.add(l)
+                if l == 0:
+                    used = True
+                    break
+                isb = (f.locals[l]["ty"] or "") == "bool"
+                for kind, ub, uj, u in local_uses(f, l):
+                    if kind == "switch":
+                        used = used or isb
+                    elif kind == "stmt":
+                        if u["rv"]["k"] == "discr" and not isb:
+                            continue  # the `?` looking at Ok / Err
+                        work.append(u["place"]["local"])
+                    elif kind == "call":
+                        dd, rr, _i = ctx.prog.callee_of(u)
+                        cal = rr or dd or ""
+                        if cal.endswith("from_residual"):
+                            continue
+                        if cal.endswith("::branch") or cal.endswith("::not") or not isb:
+                            if not u["dest"]["proj"]:
+                                work.append(u["dest"]["local"])
+                        else:
+                            used = True
+            if used:
+                yield ok("C17-H10", key, at(f, t["span"]["line"]), "verdict branched on / handed on")
+            elif f.name in VERDICT_IGNORED_OK:
+                yield ok("C17-H10", key, at(f, t["span"]["line"]), "verdict dropped: " + VERDICT_IGNORED_OK[f.name])
+            else:
+                yield bad("C17-H10", key, at(f, t["span"]["line"]), "%s drops the fault handler's verdict and carries on whatever action was taken: what follows (delivery, filestore requests, further PDUs) runs for a transaction that was just cancelled, suspended or abandoned" % f.name)
+    if n == 0:
+        raise Anchor("C17-H10", "calls of RecvTransaction::handle_fault")
+
+
 @rule("C17", "C17-H3", 2, "abandon stops at once: it reaches no transmission and terminates the transaction")
 def c17_h3(ctx):
     for adt, nm in TXNS:
